@@ -9,9 +9,13 @@ CHECK = dict(
     engine="timex",
     technique="exhaustive enumeration of per-node outcome x latency-order x caller-cancellation scripts, each executed on the real multi client "
               "(Instrument -> provide/submit -> forkjoin) in virtual time with exact-instant oracles",
-    claim="complete product over 1-2 primaries x 0-1 fallbacks (quick) / 1-3 x 0-2 (thorough) of {success, generic error, timeout-, syncing-, "
+    claim="complete product over 1-3 primaries x 0-2 fallbacks (both tiers; every concrete error form on up to 2 x 1) of {success, generic error, timeout-, syncing-, "
           "bad-gateway-class error, hang} per node, every completion order, every cancellation instant between node answers, for a provide-style "
-          "and a submit-style call; thorough additionally every concrete error form isTimeoutError/isSyncingError/isBadGateway recognise",
+          "and a submit-style call, with every concrete error form isTimeoutError/isSyncingError/isBadGateway recognise. History dimension: the "
+          "judged call is made on a client object that already served calls (the multi client and its best-node selector live as long as the process): "
+          "every outcome vector over {ok, generic, syncing, hang} of one earlier provide/submit call, made once or three times in a row, on 2x1, 1x1, "
+          "2x0 (thorough also 3x1, 1x2) nodes, followed by every judged script over the six outcome classes x latency orders x {no cancel, cancel "
+          "before the first answer}; same oracle on the judged call",
     trusted="testing/synctest virtual time; scripted nodes honour their context; caller cancellation never coincides with a node answer (half-quantum offset)",
     rule="scripts enumerated as a product; non-trivial class = call kind x topology x (returned, error)",
     assumptions=ENUMX_ASSUME,
